@@ -271,3 +271,71 @@ Proof.
   - repeat step; intro Hm; try discriminate; lia.
   - intros [-> Hm]. repeat step; try reflexivity; try lia.
 Qed.
+
+(* ------------------------------------------------ algebraic laws of the matcher *)
+(* a requirement is the CONJUNCTION of its comparators plus one pre-release gate:
+   neither the order of the comparators nor a split of the list changes the verdict *)
+From Coq Require Import Permutation.
+
+Lemma forallb_perm {A} (f : A -> bool) : forall l l', Permutation l l' -> forallb f l = forallb f l'.
+Proof.
+  intros l l' HP; induction HP as [|x l l' HP IH|x y l|l l' l'' HP1 IH1 HP2 IH2];
+    cbn [forallb]; [reflexivity| now rewrite IH | | congruence].
+  destruct (f x), (f y); reflexivity.
+Qed.
+
+Lemma existsb_perm {A} (f : A -> bool) : forall l l', Permutation l l' -> existsb f l = existsb f l'.
+Proof.
+  intros l l' HP; induction HP as [|x l l' HP IH|x y l|l l' l'' HP1 IH1 HP2 IH2];
+    cbn [existsb]; [reflexivity| now rewrite IH | | congruence].
+  destruct (f x), (f y); reflexivity.
+Qed.
+
+(* closed form of the matcher *)
+Lemma matches_req_closed : forall r v,
+  matches_req r v =
+  forallb (fun c => matches_impl c v) r
+  && (pre_is_empty (vpre v) || existsb (fun c => pre_is_compatible c v) r).
+Proof.
+  intros r v; unfold matches_req.
+  destruct (forallb _ r); cbn [negb andb]; [|reflexivity].
+  destruct (pre_is_empty (vpre v)); reflexivity.
+Qed.
+
+Theorem matches_req_perm : forall r r' v, Permutation r r' -> matches_req r v = matches_req r' v.
+Proof.
+  intros r r' v HP; rewrite !matches_req_closed.
+  now rewrite (forallb_perm _ _ _ HP), (existsb_perm _ _ _ HP).
+Qed.
+
+Theorem matches_req_app : forall r1 r2 v,
+  matches_req (r1 ++ r2) v =
+  forallb (fun c => matches_impl c v) r1 && forallb (fun c => matches_impl c v) r2
+  && (pre_is_empty (vpre v) || existsb (fun c => pre_is_compatible c v) r1
+      || existsb (fun c => pre_is_compatible c v) r2).
+Proof.
+  intros r1 r2 v; rewrite matches_req_closed, forallb_app, existsb_app.
+  now rewrite orb_assoc.
+Qed.
+
+(* on release versions a requirement is exactly the conjunction of its parts *)
+Theorem matches_req_app_release : forall r1 r2 v, vpre v = [] ->
+  matches_req (r1 ++ r2) v = matches_req r1 v && matches_req r2 v.
+Proof.
+  intros r1 r2 v Hv; rewrite !matches_req_closed, forallb_app, Hv; cbn [pre_is_empty orb].
+  now rewrite !andb_true_r.
+Qed.
+
+(* adding comparators never admits a version that was rejected for an
+   unsatisfied comparator: a match of the longer list needs every comparator of
+   the shorter one to match *)
+Theorem matches_req_app_narrows : forall r1 r2 v,
+  matches_req (r1 ++ r2) v = true -> forallb (fun c => matches_impl c v) r1 = true.
+Proof.
+  intros r1 r2 v H; rewrite matches_req_app in H.
+  apply andb_true_iff in H as [H _]; apply andb_true_iff in H as [H _]; exact H.
+Qed.
+
+(* `*` (no comparator) matches exactly the release versions *)
+Theorem matches_req_star : forall v, matches_req [] v = pre_is_empty (vpre v).
+Proof. intros v; rewrite matches_req_closed; cbn [forallb existsb andb]; now rewrite orb_false_r. Qed.
